@@ -1,6 +1,12 @@
 """Texts for MANIFEST.json, one entry per claimed property (others are listed as not_applicable)."""
 NOT_BUILT = 'check not built yet in this session (see DESIGN.md section 9 for the build order)'
 CLAIMS = {
+ 'C16': {
+  'category': 'other',
+  'text': 'Contracts on the real fork handlers. Proved (unbounded): urcu_workqueue_pause_worker / resume_worker with loop invariants for ANY number of polls (PAUSE set + sleeping worker woken, returns only after the worker itself announced PAUSED; resume clears exactly PAUSE and returns only after PAUSED was dropped), urcu_workqueue_create_worker in the child for every inherited flag combination (PAUSE and PAUSED cleared, one new worker created with signals blocked, queued work kept), and the hash-table handlers for 1..3 nested flavor registrations against those contracts (first call locks + pauses once, last call resumes / re-creates once and unlocks last). Bounded, reported apart: call_rcu_before_fork / after_fork_parent / after_fork_child over <= 2 helpers (mutex first and kept; every helper PAUSEd, woken and observed PAUSED; parent clears exactly PAUSE and waits; child: new default helper with its own thread, inherited helpers marked STOPPED and never waited for or joined, their callbacks moved exactly once, per-CPU table and thread pointer dropped, frees exactly once); pause branches of call_rcu_thread and workqueue_thread (unregistered before PAUSED, quiescent while parked, queued callbacks run exactly once after resume); bp before/after fork (gp + registry locks and full signal mask across fork, child prunes exactly the slots of vanished threads).',
+  'note': 'Assumed: fork() semantics of the OS, pthread/poll/futex/sigmask/mmap stubs, sequential meaning of the primitives; helpers and workers are the environment acting inside poll(). Not decided: absence of hangs for every fork instant and helper schedule (schedule quantifier) - wait loops are shown to wait for flags the paired thread sets (partial correctness), not to terminate; more than 2 helpers.',
+  'technique': 'contract-based deductive verification (CBMC loop contracts and ghost-state contracts on the real handlers); bounded harnesses with environment-in-poll for the list-walking handlers',
+ },
  'C15': {
   'category': 'other',
   'text': 'Contracts on the real registration code, proved for all inputs: the cds_list primitives are position independent (add/del/move/splice relink exactly the neighbours; del needs no list head, so it removes the node from whichever list - registry, cur_snap_readers, qsreaders - currently holds it; splice keeps what the destination already held); rcu_register_thread / rcu_unregister_thread of memb, mb and qsbr are exactly one insertion / removal of the own node inside one rcu_registry_lock critical section, other readers untouched, qsbr goes offline before taking the lock and online after releasing it; bp expand_arena never moves or rewrites an existing chunk or slot (mremap never MAYMOVE; in-place doubling or a new chunk of twice the capacity, exactly the new byte range cleared). Bounded, reported apart: bp arena_alloc over every occupancy of an 8-slot chunk (first free slot reused, full => exactly one expansion, no allocated slot handed out), bp lazy registration / thread-exit unregistration (all signals blocked and registry lock held around slot allocation and list insertion, mask and lock restored, already-registered => no-op), and the real synchronize_rcu + wait_for_readers of memb/mb with a thread registering while the grace period has dropped the registry lock (afterwards the registry holds the scanned reader and the new one, each once).',
